@@ -232,6 +232,15 @@ func (fr *Frame) applyContract(spec *FuncSpec, fn *ssa.Function, sig *types.Sign
 		}
 		e.assume(st.pc, t)
 	}
+	for _, c := range spec.Assumes {
+		t, err := cf.evalClause(c, st, pre, nil, nil)
+		if err != nil {
+			fr.bindErr(c, err)
+			continue
+		}
+		e.trusted["assumed clause "+spec.Key+"["+c.Label+"]"] = true
+		e.assume(st.pc, t)
+	}
 	return res
 }
 
@@ -696,6 +705,7 @@ func verifyFunction(g *G, fn *ssa.Function, spec *FuncSpec) *FuncResult {
 	st := &State{pc: "true", heap: map[string]string{}}
 	e.comp("$next", "Int")
 	e.declRaw("(assert (forall ((a Int) (i Int)) (! (< (ep a i) 0) :pattern ((ep a i)))))")
+	e.emitAxioms()
 	var args []*Val
 	nx := e.next(st)
 	for _, p := range fn.Params {
@@ -889,4 +899,18 @@ func (fr *Frame) bindConforms(spec *FuncSpec, args []*Val, st *State) {
 		fr.extraEnsures = append(fr.extraEnsures, &cc)
 	}
 	fr.extraModifies = append(fr.extraModifies, is.Modifies...)
+}
+
+func (e *Enc) emitAxioms() {
+	fr := &Frame{e: e, env: map[string]*Val{}, specVars: map[string]*Val{}, key: "axiom"}
+	st := &State{pc: "true", heap: map[string]string{}}
+	for _, a := range e.g.specs.Axioms {
+		t, err := fr.evalClause(a, st, st, nil, nil)
+		if err != nil {
+			e.g.reportBindErr("axiom", a, err)
+			continue
+		}
+		e.trusted["axiom ["+a.Label+"]"] = true
+		e.fact(t)
+	}
 }
